@@ -562,11 +562,11 @@ _MUST_SELECT = ('spec:star', 'spec:bare-id', 'spec:id:ver', 'spec:id:star', 'spe
 SUBS = [
     Sub('select', oracle_select, _classify,
         strategy=lambda tier: _select_cases(10 if tier == 'quick' else 15),
-        budget={'quick': 300, 'thorough': 2000}, sample=_sample, purge_every=40,
+        budget={'quick': 300, 'thorough': 1000}, sample=_sample, purge_every=40,
         require_tags=_MUST_SELECT),
     Sub('remove', oracle_remove, _classify,
         strategy=lambda tier: _remove_cases(3 if tier == 'quick' else 5),
-        budget={'quick': 150, 'thorough': 800}, sample=_sample, purge_every=20,
+        budget={'quick': 150, 'thorough': 400}, sample=_sample, purge_every=20,
         require_tags=('spec:list', 'spec:bare-id', 'spec:glob', 'result:proper-subset',
                       'bare-id:several-versions')),
 ]
